@@ -18,6 +18,7 @@
 #include <memory>
 #include <mutex>
 #include <utility>
+#include "celma/common/detail/verif_hooks.hpp"
 
 
 namespace celma { namespace common {
@@ -107,15 +108,21 @@ template< class T> template< class... Args>
    T& Singleton< T>::instance( Args&&... args)
 {
 
+   CELMA_VERIF_SYNC( "singleton.read1");
    if (mpObject.get() == nullptr)
    {
+      CELMA_VERIF_SYNC( "singleton.lock");
       const std::lock_guard< std::mutex>  lg( mMutex);
+      CELMA_VERIF_SYNC( "singleton.read2");
       if (mpObject.get() == nullptr)
       {
+         CELMA_VERIF_SYNC( "singleton.construct");
          mpObject.reset( new T( std::forward< Args>( args)...));
       } // end if
+      CELMA_VERIF_SYNC( "singleton.unlock");
    } // end if
 
+   CELMA_VERIF_SYNC( "singleton.read3");
    return *mpObject;
 } // Singleton< T>::instance
 
